@@ -24,6 +24,7 @@ class Ctx:
         self.table = {}
         self.next_label = 1
         self.log = []
+        self.paths = {}
 
     def label(self, doc):
         self.table, self.next_label = label_tree(doc, self.table, self.next_label)
@@ -97,6 +98,14 @@ def oexn(e):
     if isinstance(e, Boom):
         return ON("Boom", [OZ(e.n)])
     name = type(e).__name__
+    if isinstance(e, treepath.TreepathException):
+        # C16: every library exception can be rendered, repeatedly and with the same text
+        try:
+            a, b, c, d = str(e), repr(e), str(e), repr(e)
+            if a != c or b != d:
+                return OS("UNSTABLE-MESSAGE:" + name)
+        except BaseException as x:  # noqa
+            return OS("UNPRINTABLE:%s:%s" % (name, type(x).__name__))
     if name == "TraversingError":
         c = e.__cause__
         return ON("TraversingError", [oexn(c) if c is not None else OS("no-cause")])
@@ -221,6 +230,18 @@ def build_pred(cx, p, inside_these=False):
 
 
 def build_path(cx, steps, root=None):
+    """one path object per distinct spec and case: a repeated spec re-uses the stored path object"""
+    key = repr(steps)
+    hit = cx.paths.get(key) if root is None else None
+    if hit is not None:
+        return hit
+    e = _build_path(cx, steps, root)
+    if root is None:
+        cx.paths[key] = e
+    return e
+
+
+def _build_path(cx, steps, root=None):
     e = path if root is None else root
     for s in steps:
         k = s[0]
